@@ -2,7 +2,7 @@ package device
 
 // Demonstrations of the defects found by the static checks in /verif (see /verif/known_findings.txt).
 // Each test fails on the pinned snapshot (c175170) and passes after the corresponding "fix:" commit,
-// except TestFinding_F04b_* which documents a known finding that is still present.
+// (F-04b was a known finding until fix 3eb32e9).
 
 import (
 	"context"
@@ -124,18 +124,15 @@ func TestFinding_F04a_Int8OctaveProductWraps(t *testing.T) {
 	}
 }
 
-// F-04b (KNOWN FINDING, still present): 128 net octave_up presses wrap the int8 octave to -128.
+// F-04b: 128 net octave_up presses must move the octave to 128 (the int8 field wrapped to -128).
 func TestFinding_F04b_OctaveWrapsAtInt8Boundary(t *testing.T) {
 	d, _ := findingsDevice(t)
 	for i := 0; i < 128; i++ {
 		d.processEvent(key(evdev.KEY_F3, EV_KEY_PRESS))
 		d.processEvent(key(evdev.KEY_F3, EV_KEY_RELEASE))
 	}
-	if d.octave != 127 && d.octave != -128 {
-		t.Skipf("octave = %d", d.octave)
-	}
-	if d.octave == -128 {
-		t.Fatalf("128 octave_up presses moved the octave to %d (wrapped) instead of one step up each", d.octave)
+	if int(d.octave) != 128 {
+		t.Fatalf("128 octave_up presses moved the octave to %d instead of one step up each (128)", d.octave)
 	}
 }
 
